@@ -40,9 +40,20 @@ pub open spec fn wf(e: Expression, ids: Ids) -> bool
         Expression::Match(_, x) => solvable(*x) && wf(*x, ids),
         Expression::Negate(x) => solvable(*x) && wf(*x, ids),
         Expression::Nested(_, x) => solvable(*x) && wf(*x, ids),
+        Expression::Search(kind, _, _) => search_wf(kind),
         Expression::Matrix(cols, rows) => forall|j: int, i: int| 0 <= j < rows.len() && 0 <= i < rows[j].len() ==>
             rows[j].len() == cols.len()
             && ((#[trigger] rows[j][i]) is Some ==> solvable(rows[j][i]->Some_0) && wf(rows[j][i]->Some_0, ids)),
+        _ => true,
+    }
+}
+
+// data-structure invariant of a merged search: the automaton reports only patterns that have a context entry
+// (established by whoever builds the automaton from the needle list: parse_mapping / shake_1)
+pub open spec fn search_wf(kind: Search) -> bool {
+    match kind {
+        Search::AhoCorasick(a, m, _) => forall|v: Seq<char>, k: int| 0 <= k < ac_hits(&*a, v).len()
+            ==> pid(ac_pattern(#[trigger] ac_hits(&*a, v)[k])) < m@.len(),
         _ => true,
     }
 }
